@@ -35,6 +35,19 @@ type EventMeta struct {
 	ObjectSize  int64
 	ObjectETag  *string
 	VersionId   *string
+	// FailedKeys are the keys of a multi-object delete request that were
+	// not deleted: no event is sent for them
+	FailedKeys []string
+}
+
+// failed reports whether key is one of the keys that were not deleted
+func (m EventMeta) failed(key string) bool {
+	for _, k := range m.FailedKeys {
+		if k == key {
+			return true
+		}
+	}
+	return false
 }
 
 type EventSchema struct {
